@@ -2,6 +2,7 @@
 import json
 import io
 import os
+import re
 import shutil
 import tempfile
 
@@ -230,7 +231,9 @@ def oracle_history(case):
                 man.restore_backup(name, task_names=op["tasks"], verbose=False)
                 for f, b in model.items():
                     base = os.path.basename(f)
-                    wanted = any(("task_" + t) in base for t in op["tasks"])
+                    # the file's task is the name after 'task_' (letters and digits): 'go' does not ask for 'gonogo'
+                    m_ = re.search(r"task_([A-Za-z0-9]+)", base)
+                    wanted = bool(m_) and m_.group(1) in op["tasks"]
                     fp_ = os.path.join(root, f)
                     if wanted:
                         if not os.path.exists(fp_) or read(fp_) != b:
